@@ -145,7 +145,7 @@ OutAck(m, e) ==
 \* acknowledged, also while the handler is busy with a message (whatever that message obliged is moot then).
 Close(m, e) ==
   IF e.code = 0 /\ GaveUp(m) THEN [m EXCEPT !.conn = "closed", !.cc = 0, !.pend = "none"]   \* gave up: socket closed without a frame
-  ELSE IF e.code = 4408 /\ m.proto = "tws" /\ m.conn = "opened" /\ m.pend # "ack"
+  ELSE IF e.code = 4408 /\ m.proto = "tws" /\ m.conn = "opened"       \* also while a (slow) init is being handled
        THEN [m EXCEPT !.conn = "closed", !.cc = e.code, !.pend = "none"]
   ELSE IF m.pend = "close" /\ e.code \in m.pcodes THEN [m EXCEPT !.conn = "closed", !.cc = e.code, !.pend = "none"]
   ELSE IF m.pend = "close" THEN Reject(m, "CloseCode", "wrong-close-code", ToString(e.code))
